@@ -216,8 +216,9 @@ where
                 }
                 Some(DateToken::Number(ref s, Some(ref f))) if s.len() == 2 => {
                     let secs = u32::from_str_radix(&**s, 10);
-                    let nsecs = u32::from_str_radix(&**f, 10);
-                    if let (Ok(secs), Ok(nsecs)) = (secs, nsecs) {
+                    // more than 9 fractional digits cannot be represented as nanoseconds
+                    let nsecs = u32::from_str_radix(&**f, 10).ok().filter(|_| f.len() <= 9);
+                    if let (Ok(secs), Some(nsecs)) = (secs, nsecs) {
                         let nsecs = nsecs * 10u32.pow(9 - f.len() as u32);
                         out.second = Some(secs);
                         out.nanosecond = Some(nsecs);
